@@ -49,6 +49,7 @@ try:
 except ImportError:
     globalLogPublisher = None
 from twisted.python import log
+from twisted.python.failure import Failure
 
 try:
     from twisted.trial.unittest import _LogObserver
@@ -315,20 +316,29 @@ class AsynchronousDeferredRunTest(_DeferredRunTest):
         last_exception = None
         while self.case._cleanups:
             f, args, kwargs = self.case._cleanups.pop()
-            d = defer.maybeDeferred(f, *args, **kwargs)
-            try:
-                yield d
-            except GeneratorExit:
-                # The chain was abandoned (timeout, interrupt) and this
-                # generator is being closed: do not run anything more.
-                raise
-            except BaseException:
-                # Not just Exception: a KeyboardInterrupt or SystemExit from
-                # a cleanup must not abandon the remaining cleanups, nor be
-                # lost (RunTest._run_user catches BaseException too).
-                exc_info = sys.exc_info()
+            # (maybeDeferred has parameters of its own: do not pass it the
+            # cleanup's keyword arguments, one of them may be named "f")
+            d = defer.maybeDeferred(lambda: f(*args, **kwargs))
+            # Wait for the cleanup without having its failure thrown into this
+            # generator: whatever the cleanup raised or failed with is then
+            # plain data - also KeyboardInterrupt, SystemExit or
+            # GeneratorExit, which must neither abandon the remaining
+            # cleanups nor be lost (RunTest._run_user catches BaseException
+            # too) - and the only GeneratorExit ever seen here is this
+            # generator being closed because the chain was abandoned
+            # (timeout, interrupt).  We wait on a Deferred of our own: the
+            # cleanup's may be one we are already waiting on.
+            done = defer.Deferred()
+            d.addBoth(lambda outcome: done.callback((outcome,)))
+            (outcome,) = yield done
+            if isinstance(outcome, Failure):
+                exc_info = (
+                    outcome.type,
+                    outcome.value,
+                    outcome.getTracebackObject(),
+                )
                 self.case._report_traceback(exc_info)
-                last_exception = exc_info[1]
+                last_exception = outcome.value
         return last_exception
 
     def _make_spinner(self):
@@ -460,14 +470,19 @@ class AsynchronousDeferredRunTest(_DeferredRunTest):
         if successful:
             self.result.addSuccess(self.case, details=self.case.getDetails())
 
-    def _run_user(self, function, *args):
+    def _run_user(self, function, /, *args, **kwargs):
         """Run a user-supplied function.
 
         This just makes sure that it returns a Deferred, regardless of how the
         user wrote it.
         """
-        d = defer.maybeDeferred(function, *args)
-        return d.addErrback(self._got_user_failure)
+        d = defer.maybeDeferred(lambda: function(*args, **kwargs))
+        # The caller hangs its callbacks on what we return, and returns it
+        # from callbacks: that must not be the user's own Deferred, which
+        # another stage may return as well.
+        result = defer.Deferred()
+        d.addBoth(result.callback)
+        return result.addErrback(self._got_user_failure)
 
 
 class AsynchronousDeferredRunTestForBrokenTwisted(AsynchronousDeferredRunTest):
